@@ -8,6 +8,7 @@ import (
 	"strconv"
 	"strings"
 	"sync"
+	"time"
 )
 
 type envconcEngine struct{}
@@ -15,6 +16,9 @@ type envconcEngine struct{}
 func init() { register("envconc", &envconcEngine{}) }
 
 func (e *envconcEngine) leanName() string { return "conc" }
+
+// a case carries its own watchdogs (one per repetition)
+func (e *envconcEngine) caseTimeout() time.Duration { return 2 * time.Minute }
 
 func (e *envconcEngine) generate(r *rng, n int, tier string, emit func(string)) {
 	rn := 12
